@@ -2,8 +2,14 @@
      mask <argc> <k> (<min> <max> <iter 0|1>)*k   ->  accept <registration id> | reject | panic-arity | panic-iter
          k ≥ 1 registrations of one name in order (ids 1..k), then a call with <argc> arguments
      vars <n> <name>*n <m>                        ->  run <name>=<i>,… | toomany | expected <name>
-         m values (numbered 1..m) passed to Run for the n WithVariables names -/
+         m values (numbered 1..m) passed to Run for the n WithVariables names
+   Stream `ambientfree` (Props/C19VM.lean, `ambient_free_on_dump`):
+     <op|tgt|arg …>  (the `VerifCodes` dump of a program compiled WITHOUT options, syntax of C04's streams)
+                                                  ->  free | not-free <name>/<argc>
+         the static hypothesis of `default_noninterference_vm`: every native call site carries a (name,
+         argument count) that the regenerated NativeTable/Facts classify as touching no ambient state -/
 import Gojq.Model.Options
+import Gojq.Model.Ambient
 import Driver.Common
 open Gojq.Options
 
@@ -46,4 +52,4 @@ def optionsLine (line : String) : String :=
   | _ => "?parse"
 
 def main (args : List String) : IO UInt32 :=
-  Driver.main [("options", optionsLine)] args
+  Driver.main [("options", optionsLine), ("ambientfree", Gojq.Ambient.ambientFreeLine)] args
